@@ -1,0 +1,60 @@
+//! Verification hooks (only compiled with `--cfg ruzstd_verif`).
+//!
+//! Pass-through re-exports of crate-private items and a small trace recorder used by the
+//! external verification harness. Nothing here changes behaviour.
+
+pub use crate::bit_io::{VerifBitReader as BitReader, VerifBitReaderReversed as BitReaderReversed};
+pub use crate::blocks::block::{BlockHeader as DecBlockHeader, BlockType};
+pub use crate::blocks::literals_section::{LiteralsSection, LiteralsSectionType};
+pub use crate::blocks::sequence_section::{CompressionModes, Sequence, SequencesHeader};
+pub use crate::decoding::block_decoder::{new as new_block_decoder, BlockDecoder};
+pub use crate::decoding::decode_buffer::DecodeBuffer;
+pub use crate::decoding::dictionary::Dictionary;
+pub use crate::decoding::frame::{read_frame_header, FrameHeader as DecFrameHeader};
+pub use crate::decoding::literals_section_decoder::decode_literals;
+pub use crate::decoding::scratch::{DecoderScratch, FSEScratch, HuffmanScratch};
+pub use crate::decoding::sequence_execution::verif as seqexec;
+pub use crate::decoding::sequence_section_decoder::decode_sequences;
+pub use crate::decoding::sequence_section_decoder::verif as seqdec;
+pub use crate::decoding::VerifRingBuffer as RingBuffer;
+pub use crate::encoding::block_header::BlockHeader as EncBlockHeader;
+pub use crate::encoding::blocks::verif as encblocks;
+pub use crate::encoding::frame_header::FrameHeader as EncFrameHeader;
+pub use crate::encoding::util::{find_min_size, minify_val};
+
+#[cfg(feature = "std")]
+mod recorder {
+    use std::cell::RefCell;
+    use std::vec::Vec;
+    std::thread_local! {
+        static COPIES: RefCell<Vec<[usize; 6]>> = const { RefCell::new(Vec::new()) };
+        static RESERVES: RefCell<Vec<[usize; 3]>> = const { RefCell::new(Vec::new()) };
+        static ENABLED: RefCell<bool> = const { RefCell::new(false) };
+    }
+    pub fn set_recording(on: bool) {
+        ENABLED.with(|e| *e.borrow_mut() = on);
+    }
+    pub fn record_copy(rec: [usize; 6]) {
+        if ENABLED.with(|e| *e.borrow()) {
+            COPIES.with(|c| c.borrow_mut().push(rec));
+        }
+    }
+    pub fn record_reserve(rec: [usize; 3]) {
+        if ENABLED.with(|e| *e.borrow()) {
+            RESERVES.with(|c| c.borrow_mut().push(rec));
+        }
+    }
+    pub fn take_copies() -> Vec<[usize; 6]> {
+        COPIES.with(|c| core::mem::take(&mut *c.borrow_mut()))
+    }
+    pub fn take_reserves() -> Vec<[usize; 3]> {
+        RESERVES.with(|c| core::mem::take(&mut *c.borrow_mut()))
+    }
+}
+#[cfg(feature = "std")]
+pub use recorder::*;
+
+#[cfg(not(feature = "std"))]
+pub fn record_copy(_rec: [usize; 6]) {}
+#[cfg(not(feature = "std"))]
+pub fn record_reserve(_rec: [usize; 3]) {}
